@@ -25,6 +25,7 @@ here; `Audit.lean` lists all of them.
 -/
 import SteelVerif.C06.LemmasHistory5
 import SteelVerif.C06.LemmasPropagate3
+import SteelVerif.C06.LemmasLiveness
 namespace SteelVerif.C06
 
 /-- The empty engine, with any recycling threshold and epoch. -/
@@ -164,6 +165,88 @@ example :
   have ho : ∀ m, (oracle m).Perm m.sym.fl.free := fun m => List.reverse_perm _
   have hok : histOKO oracle (emptyM 100 1) hist = true := by decide
   exact ⟨ho, hok, slots_refine_cells_any_reuse_order oracle ho 100 1 hist hok, by decide⟩
+
+/-! ## Liveness: the slots in use stay bounded
+
+Safety says a slot in use is never reclaimed; liveness says garbage IS reclaimed (`recycle_frees_unreached`,
+`recycle_dead_iff`, `recycle_frees_candidate_cycles` in `LemmasLiveness.lean`: a recycler run frees exactly the
+candidates that are not reached from the unshadowed globals, cycles included).  Along a history: -/
+
+/-- **Pending shadows are bounded.**  After every history inside the guards the queue of shadowed slots is within the
+threshold in force. -/
+theorem pending_shadows_bounded : ∀ (hist : History) {own : Own} {s : Spec.State} {m : State},
+    Rel own s m → Assigned m.sym m.globals → histOK m hist = true →
+    m.sym.fl.shadowed.length ≤ m.sym.fl.threshold →
+    (stateM m hist).sym.fl.shadowed.length ≤ (stateM m hist).sym.fl.threshold := by
+  intro hist
+  induction hist with
+  | nil => intro own s m _ _ _ hb; exact hb
+  | cons p rest ih =>
+    intro own s m h hA hok hb
+    simp only [histOK, Bool.and_eq_true] at hok
+    obtain ⟨_, own', h', hA'⟩ := step_refines h hA p hok.1
+    exact ih h' hA' hok.2 (step_pending h p hok.1 hb)
+
+/-- **The slots in use are bounded by what is settled plus the threshold** (the plateau): after every history inside
+the guards, from the empty engine, the slots in use split into the pending shadows — at most `threshold` of them —
+and the settled ones (bound to a name, or retained by an earlier recycler run because they were reached), and every
+recycler run along the way removed every candidate that was not reached (`recycle_dead_iff`), so the settled part
+grows only by definitions of new names and by reached candidates. -/
+theorem slots_bounded (t e : Nat) (hist : History) (hok : histOK (emptyM t e) hist = true) :
+    inUse (stateM (emptyM t e) hist).sym ≤
+      (inUse (stateM (emptyM t e) hist).sym - (stateM (emptyM t e) hist).sym.fl.shadowed.length) +
+        (stateM (emptyM t e) hist).sym.fl.threshold := by
+  have := pending_shadows_bounded hist (rel_empty t e) rfl hok (Nat.zero_le _)
+  omega
+
+/-- What is retained is not reconsidered (the engine: "after one pass, we'll ignore it forever"): `h` reads the first
+`v`, `v` is redefined (the recycler runs and must keep the first `v`), then `h` is redefined — the first `v` is
+unreachable now but is no candidate any more: three slots stay in use for two names and no pending shadow.  So
+"slots in use ≤ names + threshold" holds only up to such retained slots. -/
+theorem retained_slots_are_not_reconsidered :
+    let hist : History := [[.defc "v" 1], [.deff "h" [.read "v"]], [.defc "v" 2], [.deff "h" [.read "v"]],
+      [.defc "j" 0]]
+    histOK (emptyM 0 1) hist = true ∧ (stateM (emptyM 0 1) hist).sym.fl.shadowed = [] ∧
+    (stateM (emptyM 0 1) hist).sym.map.length = 3 ∧ inUse (stateM (emptyM 0 1) hist).sym = 4 := by
+  intro hist
+  rw [← histOKF_eq, ← stateMF_eq]
+  refine ⟨by decide, by decide, by decide, by decide⟩
+
+/-- The state in the middle of a build (threshold 0): slot 1 holds the first `r`, a recursive function (it mentions
+itself and the first `v`, slot 0); slot 2 holds `q`, which reads the first `v`; `r` and `v` have just been redefined,
+so slots 1 and 0 are candidates. -/
+def cycState : State :=
+  { sym := { values := ["v", "r", "q", "r", "v"], map := [("v", 4), ("r", 3), ("q", 2)], fl := { shadowed := [1, 0], threshold := 0 } },
+    globals := [.int 1, .fn [.g true 1, .g false 0], .fn [.g false 0]] }
+
+/-- Non-vacuity of the liveness theorems: the hypotheses of `recycle_frees_candidate_cycles` hold for `C = [1]` (only
+slot 1 mentions slot 1), so the recursive function's slot is reclaimed although it mentions itself; slot 0 is reached
+(`Live`: the root `q` mentions it) and `recycle_dead_iff` keeps it; the run as computed agrees. -/
+example :
+    (1 ∈ (recycle cycState).sym.fl.free ∧ (recycle cycState).globals[1]? = some .void) ∧
+    Live cycState.globals cycState.sym.fl.shadowed.eraseDups (rootsOf cycState) 0 ∧ 0 ∉ deadOf cycState ∧
+    (recycle cycState).sym.fl.free = [1] ∧ inUse (recycle cycState).sym = 4 := by
+  have hcyc := recycle_frees_candidate_cycles cycState [1]
+    (by intro c hc; have : c = 1 := by simpa using hc
+        subst this; decide)
+    (by intro c hc i hi
+        have : c = 1 := by simpa using hc
+        subst this
+        have hi3 : i < 3 := by
+          by_cases h3 : i < 3
+          · exact h3
+          · have hn : cycState.globals[i]? = none := List.getElem?_eq_none (by simp [cycState]; omega)
+            simp [slotsOf, hn] at hi
+        have : i = 0 ∨ i = 1 ∨ i = 2 := by omega
+        rcases this with e | e | e <;> subst e
+        · simp [slotsOf, cycState, Val.slots] at hi
+        · simp
+        · simp [slotsOf, cycState, Val.slots] at hi)
+    1 (by simp)
+  have hlive : Live cycState.globals cycState.sym.fl.shadowed.eraseDups (rootsOf cycState) 0 :=
+    Live.root 2 0 (by decide) (by decide) (by decide)
+  have h0 : 0 ∉ deadOf cycState := fun hd => ((recycle_dead_iff cycState 0).mp hd).2.2 hlive
+  refine ⟨hcyc, hlive, h0, ?_, ?_⟩ <;> (rw [← recycleF_eq]; decide)
 
 /-! ## Corollaries -/
 
